@@ -111,7 +111,7 @@ class ImageWriter:
         """Save an LTImage to disk"""
         (width, height) = image.srcsize
         if not all(
-            isinstance(v, int) and 0 <= v < 2**31
+            isinstance(v, int) and 0 < v < 2**31
             for v in (width, height, image.bits)
         ):
             raise PDFValueError(
